@@ -3,7 +3,7 @@
 //! step they describe, so their order is the order of the file operations.
 
 use parking_lot::Mutex;
-use std::sync::atomic::{AtomicBool, Ordering};
+use std::sync::atomic::{AtomicBool, AtomicU64, Ordering};
 
 /// One step of the WAL manager.
 #[derive(Debug, Clone)]
@@ -17,6 +17,20 @@ pub struct WalEvent {
 }
 
 static ENABLED: AtomicBool = AtomicBool::new(false);
+static MAX_LOG_SIZE: AtomicU64 = AtomicU64::new(0);
+
+/// Overrides `WalConfig::default().max_log_size` (0 = no override), so that a database opened
+/// through `GrafeoDB` rotates its log after a few records instead of after 64 MB.
+pub fn set_max_log_size(bytes: u64) {
+    MAX_LOG_SIZE.store(bytes, Ordering::SeqCst);
+}
+
+pub(crate) fn max_log_size() -> Option<u64> {
+    match MAX_LOG_SIZE.load(Ordering::SeqCst) {
+        0 => None,
+        n => Some(n),
+    }
+}
 static EVENTS: Mutex<Vec<WalEvent>> = Mutex::new(Vec::new());
 
 /// Turns recording on or off (off by default).
